@@ -101,7 +101,7 @@ func (s *state) lock() func() { s.mu.Lock(); return s.mu.Unlock }
 // Run is the C18 check.
 func Run(c *core.Ctx) int {
 	s := &state{c: c, classes: map[string]bool{}, exprs: map[string]bool{}, stdDirs: map[string]bool{}, e2eByMode: map[string]int{}, samples: map[string][]sample{}, locByPlace: map[string]int{}}
-	npk := c.N(150, 6000)
+	npk := c.N(150, 2000)
 	nsets := c.N(3, 5)
 
 	// the real CLI is built in the background; a few packages go through it
